@@ -178,6 +178,8 @@ def observe(p):
     o = {"type": type(p).__name__, "L": [float(x) for x in p.left], "R": [float(x) for x in p.right]}
     try:
         o["lo"], o["hi"] = float(p.lo), float(p.hi)
+        if getattr(p, "support", None) is not None:     # the support AS REPORTED (an attribute of its own, set when the p-box is built)
+            o["support"] = [float(np.min(p.support.lo)), float(np.max(p.support.hi))]
     except Exception as e:
         o["range_exc"] = repr(e)[:80]
     try:
@@ -271,6 +273,8 @@ def wf_problems(o, steps):
         out.append(("range", "support cannot be read: " + o["range_exc"]))
     elif not (o["lo"] == L[0] and o["hi"] == R[-1]):
         out.append(("range", f"reported support [{o['lo']}, {o['hi']}] is not [first left, last right] = [{L[0]}, {R[-1]}]"))
+    elif "support" in o and not (o["support"][0] == L[0] and o["support"][1] == R[-1]):
+        out.append(("range", f"reported support attribute {o['support']} is not [first left, last right] = [{L[0]}, {R[-1]}]"))
     if "moments_exc" in o:
         out.append(("moments", "moments cannot be read: " + o["moments_exc"]))
         return out
